@@ -425,6 +425,44 @@ def main():
     init_src = [ast.unparse(st) for st in init.body]
     need("self.structs = structs" in init_src and "self._scp_data_length = None" in init_src, init,
          "__init__ stores the caller's structs and starts without a known SCP buffer size")
+    # the result classes: field order, constructor signature with its defaults, what the constructor forwards
+    CLASSES = {
+        "ChipInfo": ["collections.namedtuple('ChipInfo', 'num_cores core_states working_links largest_free_sdram_block "
+                     "largest_free_sram_block largest_free_rtr_mc_block ethernet_up ip_address local_ethernet_chip')"],
+        "SystemInfo": ["dict"],
+        "CoreInfo": ["collections.namedtuple('CoreInfo', 'position physical_cpu virt_cpu software_version buffer_size "
+                     "build_date version_string software_version_labels')"],
+    }
+    for cname, bases in sorted(CLASSES.items()):
+        cl = [n for n in tree.body if isinstance(n, ast.ClassDef) and n.name == cname]
+        need(len(cl) == 1 and [ast.unparse(b) for b in cl[0].bases] == bases, cl[0] if cl else tree,
+             "class %s(%s)" % (cname, ", ".join(bases)))
+        methods = sorted(n.name for n in cl[0].body if isinstance(n, ast.FunctionDef))
+        want_methods = {"ChipInfo": ["__new__"], "CoreInfo": [],
+                        "SystemInfo": ["__contains__", "__init__", "chips", "cores", "dead_chips", "dead_links",
+                                       "ethernet_connected_chips", "links"]}[cname]
+        need(methods == want_methods, cl[0], "%s defines exactly the methods %r (no copy / pickle hooks)" % (cname, want_methods))
+    CTORS = {
+        "ChipInfo.__new__": (
+            "cls, num_cores=18, core_states=None, working_links=set(Links), largest_free_sdram_block=119275492, "
+            "largest_free_sram_block=22240, largest_free_rtr_mc_block=1023, ethernet_up=False, ip_address='0.0.0.0', "
+            "local_ethernet_chip=(255, 255)",
+            ["if core_states is None:\n    core_states = ([consts.AppState.run] + [consts.AppState.idle] * num_cores)[:-1]",
+             "return super(ChipInfo, cls).__new__(cls, num_cores, core_states, working_links, largest_free_sdram_block, "
+             "largest_free_sram_block, largest_free_rtr_mc_block, ethernet_up, ip_address, local_ethernet_chip)"]),
+        "SystemInfo.__init__": (
+            "self, width, height, *args, **kwargs",
+            ["super(SystemInfo, self).__init__(*args, **kwargs)", "self.width = width", "self.height = height"]),
+    }
+    for qual, (sig, want) in sorted(CTORS.items()):
+        f = py2v.find_function(tree, qual)
+        body = [st for st in f.body if not (isinstance(st, ast.Expr) and isinstance(st.value, ast.Constant)
+                                            and isinstance(st.value.value, str))]
+        need(ast.unparse(f.args) == sig, f, "%s(%s)" % (qual, sig))
+        need([ast.unparse(st) for st in body] == want, f, "%s consists of the statements %r" % (qual, want))
+    out.append("(* %s : classes ChipInfo / SystemInfo / CoreInfo: bases, field order, constructor signatures and defaults "
+               "matched *)" % MC)
+    out.append(dumplib.definition("result_class_shapes_matched", "Z", dumplib.z(len(CLASSES) + len(CTORS))))
     out.append("(* %s : struct look-up and forwarding entry points matched statement by statement *)" % MC)
     out.append(dumplib.definition("forwarding_shapes_matched", "Z", dumplib.z(len(SHAPES))))
 
